@@ -127,7 +127,17 @@ def _fault(rng):
 
 def generate(rng, tier, idx):
     n_models = rng.choice([1, 1, 2, 2, 3, 4])
-    pop = [_model_spec(rng, 'm%d' % i, tier) for i in range(n_models)]
+    if rng.random() < 0.25 and n_models >= 2:
+        # several live objects of ONE class (state shared between objects of a class, or keyed
+        # by something that does not identify the object, shows between such neighbours)
+        first = _model_spec(rng, 'm0', tier)
+        pop = [first] + [_model_spec(rng, 'm%d' % i, tier, force_cls=first['cls'])
+                         for i in range(1, n_models)]
+        for p in pop[1:]:
+            if 'vine_type' in first['ctor']:
+                p['ctor']['vine_type'] = first['ctor']['vine_type']
+    else:
+        pop = [_model_spec(rng, 'm%d' % i, tier) for i in range(n_models)]
     ops = []
     n_ops = rng.randint(4, 16)
     fault_rate = rng.choice([0.0, 0.0, 0.15, 0.3])
@@ -144,7 +154,7 @@ def generate(rng, tier, idx):
                 n = -1
             op = {'op': 'sample', 'm': m, 'n': n}
             if kinds[m] == 'gmv' and rng.random() < 0.3:
-                op['cond'] = {'col': rng.randrange(2), 'v': round(rng.uniform(-3, 3), 3),
+                op['cond'] = {'col': rng.randrange(2), 'v': rng.choice([0.1, -0.5, 1.0]),
                               'bad': rng.random() < 0.1}
             if rng.random() < fault_rate:
                 op['fault'] = _fault(rng)
@@ -170,7 +180,7 @@ def generate(rng, tier, idx):
             ops.append({'op': 'dataset', 'name': rng.choice(DATASETS),
                         'size': rng.choice([1, 2, 7, 50]), 'seed': rng.randrange(10**6)})
     return {'g0': rng.randrange(2**31), 'twin_state': rng.randrange(2**31),
-            'population': pop, 'ops': ops}
+            'population': pop, 'ops': ops, 'proc_twin': rng.random() < 0.6}
 
 
 _ENUM_REPS = [
@@ -259,6 +269,90 @@ def simplify(run):
 # execution
 # ----------------------------------------------------------------------------
 
+class ProcTwin:
+    """Isolated-stream twin in its own address space: a forked child that owns a copy of one
+    model (as of the end of the set-up) and executes only that model's sample /
+    set_random_state calls.  Unlike the in-process twin it cannot be reached through
+    class-level or module-level state that the live models share."""
+
+    def __init__(self, world, mid):
+        import os
+        import pickle
+        r1, w1 = os.pipe()
+        r2, w2 = os.pipe()
+        pid = os.fork()
+        if pid == 0:                                   # child
+            try:
+                os.close(w1)
+                os.close(r2)
+                fin, fout = os.fdopen(r1, 'rb'), os.fdopen(w2, 'wb')
+                T = world.twin[mid]
+                while True:
+                    try:
+                        msg = pickle.load(fin)
+                    except EOFError:
+                        break
+                    if msg['cmd'] == 'quit':
+                        break
+                    try:
+                        reply = self._serve(T, msg)
+                    except BaseException as e:  # noqa: B902
+                        reply = ('harness', repr(e))
+                    pickle.dump(reply, fout)
+                    fout.flush()
+            finally:
+                os._exit(0)
+        os.close(r1)
+        os.close(w2)
+        self.pid = pid
+        self.fout, self.fin = os.fdopen(w1, 'wb'), os.fdopen(r2, 'rb')
+
+    @staticmethod
+    def _serve(T, msg):
+        from copsim.core import canon
+        if msg['cmd'] == 'set_random_state':
+            outcome(T.set_random_state, zoo.make_seed(msg['seed']))
+            return ('ok', None, None)
+        cond = _cond_for(T, msg['cond'])
+        tracer = None
+        if msg.get('fault'):
+            f = msg['fault']
+            tracer = CrashTracer(body_codes_of(T), at=f['at'], kind=f['kind'], domain=f['domain'])
+        saved_tau = None
+        if msg.get('badtau'):
+            saved_tau = T.tau
+            T.tau = 2.0
+        state = msg['state']
+        with with_global_state(state) if state is not None else sterile(msg['sterile']):
+            out = _call_sample(T, msg['n'], cond, tracer)
+        if saved_tau is not None:
+            T.tau = saved_tau
+        st = _model_state(T)
+        return (outcome_class(out), canon(out[1]) if out[0] == 'ok' else None,
+                None if st is None else state_digest(st))
+
+    def call(self, msg):
+        import pickle
+        pickle.dump(msg, self.fout)
+        self.fout.flush()
+        return pickle.load(self.fin)
+
+    def close(self):
+        import os
+        import pickle
+        try:
+            pickle.dump({'cmd': 'quit'}, self.fout)
+            self.fout.flush()
+            self.fout.close()
+            self.fin.close()
+        except Exception:
+            pass
+        try:
+            os.waitpid(self.pid, 0)
+        except Exception:
+            pass
+
+
 class _World:
     def __init__(self, run, ctx):
         self.run = run
@@ -268,6 +362,7 @@ class _World:
         self.meta = {}
         self.snapshots = []
         self.last_fired = False
+        self.proc = {}
 
 
 def _subject(model):
@@ -443,6 +538,26 @@ def _check_sample(w, mid, n, condspec, fault, label='sample'):
             ctx.violate('I4_unseeded_driven_by_global_state', subject,
                         'unseeded call returned %d row(s) without consuming the global '
                         'generator' % n, **cond)
+    pt = w.proc.get(mid)
+    if pt is not None:
+        from copsim.core import canon
+        msg = {'cmd': 'sample', 'n': n, 'cond': condspec, 'sterile': w.run['twin_state'] + 7,
+               'state': None if seeded else g_before, 'badtau': label == 'sample_badtau'}
+        if tracer_l is not None:
+            msg['fault'] = {'at': tracer_l.at, 'kind': fault['kind'], 'domain': fault['domain']}
+        reply = pt.call(msg)
+        ctx.stats['process_isolated_twin_calls'] += 1
+        if reply[0] == 'harness':
+            raise RuntimeError('process twin failed: ' + reply[1])
+        mine = canon(out_l[1]) if out_l[0] == 'ok' else None
+        post = _model_state(L)
+        if reply[0] != oc or reply[1] != mine:
+            ctx.violate('I2_stream_equals_process_isolated_twin', subject,
+                        'live outcome %s differs from the twin that runs alone in its own '
+                        'process (%s)' % (oc, reply[0]), **cond)
+        elif seeded and post is not None and reply[2] != state_digest(post):
+            ctx.violate('I2_stored_state_equals_process_isolated_twin', subject,
+                        'stored random state differs from the process-isolated twin', **cond)
     if out_l[0] == 'ok' and w.meta[mid]['fitted'] and n >= 0:
         try:
             rows = len(out_l[1])
@@ -523,6 +638,18 @@ def execute(run):
     w = _World(run, ctx)
     np.random.seed(run['g0'] % (2**32))
     _setup(w)
+    if run.get('proc_twin') and not any(o['op'] == 'sample_enum' for o in run['ops']):
+        for mid in w.live:
+            w.proc[mid] = ProcTwin(w, mid)
+    try:
+        _run_ops(w, run, ctx)
+    finally:
+        for pt in w.proc.values():
+            pt.close()
+    return ctx.result()
+
+
+def _run_ops(w, run, ctx):
     for i, op in enumerate(run['ops']):
         ctx.op_index = i
         kind = op['op']
@@ -545,6 +672,8 @@ def execute(run):
         elif kind == 'set_random_state':
             o1 = outcome(w.live[mid].set_random_state, zoo.make_seed(op['seed']))
             outcome(w.twin[mid].set_random_state, zoo.make_seed(op['seed']))
+            if mid in w.proc:
+                w.proc[mid].call({'cmd': 'set_random_state', 'seed': op['seed']})
             w.meta[mid]['seed_kind'] = (op['seed'] or {}).get('kind', 'none')
             ctx.stats['ops'] += 1
             if op['seed'] is None:
@@ -593,7 +722,6 @@ def execute(run):
             _dataset(w, op)
         elif kind == 'pair_fresh':
             _pair_fresh(w, op)
-    return ctx.result()
 
 
 def _pair_fresh(w, op):
